@@ -32,6 +32,7 @@ type Entry struct {
 	Long   string      `json:"long,omitempty"` // "", "gnu", "pax": encoding of the name (forced even for short names)
 	Pax    [][2]string `json:"pax,omitempty"`  // extra PAX records emitted before the entry
 	BadSum bool        `json:"badsum,omitempty"`
+	Raw    []byte      `json:"raw,omitempty"` // explicit data instead of the Len/Fill pattern (bundle entries)
 }
 
 type ArchiveSpec struct {
@@ -45,6 +46,9 @@ type ArchiveSpec struct {
 }
 
 func entryData(e Entry) []byte {
+	if e.Raw != nil {
+		return e.Raw
+	}
 	b := make([]byte, e.Len)
 	if e.Fill != 0 {
 		for i := range b {
@@ -307,6 +311,9 @@ func genEntry(t *rapid.T, i int, budget *int) Entry {
 		e.Len = rapid.SampledFrom([]int{1 << 20, 2 << 20}).Draw(t, l+"/biglen")
 	default:
 		e.Len = rapid.IntRange(1, 300).Draw(t, l+"/slen")
+	}
+	if *budget < 0 {
+		*budget = 0
 	}
 	if e.Len > *budget {
 		e.Len = *budget
